@@ -126,7 +126,9 @@ def run(ctx):
                "errors are exception_ptr carrying a tagged exception")
     rep.assume("leaf outcomes: inline value/error/done or deferred with any channel; deferred leaves react to stop by ignoring it or completing with done; "
                "one external stop request per behaviour at any quiescent point (thorough: also inside a leaf's start())")
-    cat = catalogue.catalogue(ctx.tier, 1)      # the catalogue is fixed per tier (VERIF_SEED only drives sampling of behaviours)
+    cat = catalogue.catalogue(ctx.tier, 1, prop)      # the catalogue is fixed per tier (VERIF_SEED only drives sampling of behaviours)
+    if prop == "C20" and ctx.quick:
+        cat = cat[::2]                           # every second shape: each configuration is a full rebuild of all factories
     shapes = [s["spec"] for s in cat]
     by_id = {s["spec"]["id"]: s for s in cat}
     sp = os.path.join(ctx.work, "shapes.json")
@@ -184,166 +186,188 @@ def run(ctx):
     with open(bp, "w") as f:
         for i, b in enumerate(behaviours):
             f.write(json.dumps(dict(b=i, cfg=b["cfg"], steps=[dict(k=s["k"], n=s["n"], ch=s["ch"]) for s in b["steps"]])) + "\n")
-    # ---- build
-    gh = hashlib.sha1(json.dumps([s["cpp"] for s in cat]).encode()).hexdigest()[:16]
-    gdir = os.path.join(vlib.VERIF, "_build", "alg_gen_" + gh)
-    files = gen_cpp(cat, gdir)
-    exe = vlib.build(ctx, "alg_driver", [os.path.join(HERE, "driver.cpp")] + files,
-                     lib=["inplace_stop_token.cpp", "async_stack.cpp", "exception.cpp"], incs=[HERE], opt="-O0")
-    # ---- replay
-    outp = os.path.join(ctx.work, "replay_out.ndjson")
-    lp = os.path.join(ctx.work, "alg_log.ndjson")
-    t0 = time.time()
-    sums, deaths = vlib.run_batches(ctx, exe, ["--behaviours", bp, "--out", outp] + (["--log", lp] if False else []), len(behaviours), lp, timeout=3000)
-    rep.note("replayed %d behaviours in %.1fs" % (sum(s["ran"] for s in sums), time.time() - t0))
-    got = {}
-    for l in open(outp):
-        try:
-            r = json.loads(l)
-        except Exception:
-            continue
-        got[r["x"]] = r
-    rep.evaluations += len(got)
-    nviol = 0
-    rel = RELEVANT.get(prop, ())
-    mem_props = ("C02", "C18")
-    for d in deaths:
-        x = d["x"]
-        b = behaviours[x] if x < len(behaviours) else None
-        sh = by_id[b["cfg"]["shape"]]["spec"]["text"] if b else "?"
-        rec = dict(engine="alg", event=d["event"], shape=sh, cfg=(b["cfg"] if b else None),
-                   kinds=sorted(set(by_id[b["cfg"]["shape"]]["spec"]["kind"])) if b else [], asan=d.get("asan"), frame=d.get("frame"), where=d.get("where"),
-                   steps=[(s["k"], s["n"], s["ch"]) for s in b["steps"]] if b else None,
-                   what="%s while replaying %s: %s %s" % (d["event"], sh, d.get("asan", ""), d.get("frame", "")), detail=d.get("stderr_tail"))
-        if prop in mem_props or d["event"] in ("Terminate", "Hang", "Deadlock") and prop == "C01":
-            rep.violation(rec)
-        else:
-            rep.oos.append(dict(event=d["event"], shape=sh, frame=d.get("frame"), where=d.get("where"), asan=d.get("asan"),
-                                steps=rec["steps"], mode=(b["cfg"]["mode"] if b else None), detail=(d.get("stderr_tail") or "")[-600:]))
-    for x, b in enumerate(behaviours):
-        r = got.get(x)
-        if r is None:
-            continue
-        sh = by_id[b["cfg"]["shape"]]["spec"]
-        key = (sh["id"], json.dumps(b["cfg"]["mode"], sort_keys=True), b["cfg"].get("throwAt"), tuple((s["k"], s["n"], s["ch"]) for s in b["steps"]))
-        if len(b["steps"]) > 1:
-            rep.distinct.add(hash(key))
-        diffs = {}
-        at = None
-        for i, (st, ob) in enumerate(zip(b["steps"], r["obs"])):
-            if "error" in ob:
-                diffs["drift.unreplayable"] = ob["error"]
-                at = i
-                break
-            dd = compare(st["exp"], norm_obs_got(ob), b["cfg"])
-            if dd:
-                diffs, at = dd, i
-                break
-        if r["live"] or r["bad"]:
-            diffs["C02.lifetime"] = "tracked objects alive at the end: %d; %s" % (r["live"], r["bad"][:3])
-        fin = r.get("final", {})
-        if len(fin.get("root", [])) != 1:
-            diffs["C01.final"] = "after all leaves and contexts were drained the outer receiver was completed %d times" % len(fin.get("root", []))
-        if not diffs:
-            continue
-        hard = {k: v for k, v in diffs.items() if k.startswith(rel)}
-        if any(k.startswith("drift.") for k in diffs) or not hard:
-            rep.drift += 1
-            if rep.drift <= 3:
-                rep.note("drift in %s step %s: %s" % (sh["text"], at, list(diffs.items())[:2]))
-        if hard:
-            nviol += 1
-            steps = [(s["k"], s["n"], s["ch"]) for s in b["steps"]]
-            exp_ch = got_ch = ""
-            if at is not None and at < len(r["obs"]) and "error" not in r["obs"][at]:
-                er, gr = b["steps"][at]["exp"]["root"], r["obs"][at]["root"]
-                exp_ch = er[0]["ch"] if er else "-"
-                got_ch = gr[0]["ch"] if gr else "-"
-            rep.violation(dict(engine="alg", event="ObservationMismatch", shape=sh["text"], shape_id=sh["id"], fields=sorted(hard), step=at,
-                               exp_ch=exp_ch, got_ch=got_ch, ext_stop=any(s["k"] == "X" for s in b["steps"][:(at or 0) + 1]),
-                               kinds=sorted(set(sh["kind"])), mode=b["cfg"]["mode"], throwAt=b["cfg"].get("throwAt"), stopIn=b["cfg"].get("stopIn"),
-                               steps=steps, what="%s: %s [modes %s, steps %s, at step %s]" % (
-                                   sh["text"], "; ".join(hard.values()), json.dumps(b["cfg"]["mode"], sort_keys=True), steps, at)))
-    # ---- C11: declared static traits of every shape (read from the code at build time) vs. all behaviours of the shape
-    if prop in ("C11", "C20"):
-        rc, so, se = vlib.run_exe(exe, ["--traits"], timeout=120)
-        traits = json.loads(so.strip().splitlines()[-1]) if rc == 0 and so.strip() else {}
-        BK = {0: "always_inline", 1: "always", 2: "maybe", 3: "never"}
-        bad_tr = {}
-        for x, b in enumerate(behaviours):
-            sid = b["cfg"]["shape"]
-            tr = traits.get(str(sid))
-            if not tr:
-                continue
-            r = got.get(x)
-            for i, st in enumerate(b["steps"]):
-                for src, obs in (("spec", st["exp"]), ("code", norm_obs_got(r["obs"][i]) if r and i < len(r["obs"]) and "error" not in r["obs"][i] else None)):
-                    if obs is None:
-                        continue
-                    before = len(b["steps"][i - 1]["exp"]["root"]) if i > 0 else 0
-                    in_start = st["k"] == "S" and len(obs["root"]) == 1 and before == 0
-                    if st["k"] == "S" and BK[tr["blocking"]] in ("always_inline", "always") and not in_start:
-                        bad_tr.setdefault((sid, "blocking=%s but start() returned without completion (%s)" % (BK[tr["blocking"]], src)), (b, i))
-                    if BK[tr["blocking"]] == "never" and in_start:
-                        bad_tr.setdefault((sid, "blocking=never but completed inside start() (%s)" % src), (b, i))
-                    if tr["sends_done"] == 0 and any(rr["ch"] == "d" for rr in obs["root"]):
-                        bad_tr.setdefault((sid, "sends_done=false but completed with done (%s)" % src), (b, i))
-        for (sid, msg), (b, i) in bad_tr.items():
-            sh = by_id[sid]["spec"]
-            rep.violation(dict(engine="alg", event="TraitUnsound", shape=sh["text"], kinds=sorted(set(sh["kind"])), trait=msg.split(" ")[0],
-                               steps=[(s["k"], s["n"], s["ch"]) for s in b["steps"]], mode=b["cfg"]["mode"],
-                               what="%s declares %s [modes %s, steps %s]" % (sh["text"], msg, json.dumps(b["cfg"]["mode"], sort_keys=True), [(s["k"], s["n"], s["ch"]) for s in b["steps"]])))
-        rep.note("static traits checked for %d shapes: %s" % (len(traits), collections.Counter(BK[t["blocking"]] for t in traits.values())))
-    # ---- code -> spec: the recorded event log of every execution is validated by TLC against the monitor AlgMon
-    monprop = {"C01": "C01", "C02": "C02", "C04": "C04", "C12": "C12", "C18": "ALL", "C20": "ALL"}.get(prop)
-    def validate(log_path, label, behs):
+    def replay_cfg(bc):
+        # ---- build
+        gh = hashlib.sha1(json.dumps([s["cpp"] for s in cat]).encode()).hexdigest()[:16]
+        gdir = os.path.join(vlib.VERIF, "_build", "alg_gen_" + gh)
+        files = gen_cpp(cat, gdir)
+        exe = vlib.build(ctx, "alg_driver", [os.path.join(HERE, "driver.cpp")] + files,
+                         lib=["inplace_stop_token.cpp", "async_stack.cpp", "exception.cpp"], incs=[HERE], opt="-O0",
+                         std=bc["std"], defs=bc["defs"], cxx=bc.get("cxx", "g++"), recover=True)
+        # ---- replay
+        outp = os.path.join(ctx.work, "replay_out_%s.ndjson" % bc["name"])
+        lp = os.path.join(ctx.work, "alg_log_%s.ndjson" % bc["name"])
         t0 = time.time()
-        n, rejected = vlib.validate_batched(ctx, "algebra", "AlgMon", log_path, env={"PROP": monprop})
-        rep.note("%s: %d recorded executions validated against AlgMon[%s] in %.0fs" % (label, n, monprop, time.time() - t0))
-        for rj in rejected:
-            x = rj["x"]
-            b = behs[x] if x is not None and x < len(behs) else None
-            sh = by_id[b["cfg"]["shape"]]["spec"] if b else {"text": "?", "kind": []}
-            nxt = rj["events"][rj["prefix"]] if rj.get("prefix") is not None and rj["prefix"] < len(rj["events"]) else None
-            rep.violation(dict(engine="alg", event="MonitorReject", monitor="AlgMon", rules=monprop, shape=sh["text"], kinds=sorted(set(sh["kind"])),
-                               rejected_event=nxt, copyThrowAt=(b or {}).get("copyThrowAt", 0), cfg=(b or {}).get("cfg"),
-                               steps=[(s["k"], s["n"], s["ch"]) for s in b["steps"]] if b else None,
-                               what="AlgMon[%s] rejects the execution of %s at event %s (%s)" % (monprop, sh["text"], rj.get("prefix"), json.dumps(nxt)),
-                               events=rj["events"][:200]))
-    if monprop:
-        validate(lp, "replay", behaviours)
-        ex = vlib.split_executions(lp)
-        if ex:
-            rep.sample(dict(kind="recorded-trace", events=[json.loads(x) for x in ex[len(ex) // 2][1][:40]]))
-    # ---- fault injection (C02, and C01 in the thorough tier): the k-th copy of a tracked value throws
-    if prop == "C02" or (prop in ("C01",) and not ctx.quick):
-        cand = [(x, b) for x, b in enumerate(behaviours) if got.get(x) and got[x].get("copies", 0) > 0 and not b["cfg"].get("throwAt")]
-        ctx.rng.shuffle(cand)
-        cand = cand[:(250 if ctx.quick else 3000)]
-        fb = []
-        for x, b in cand:
-            for k in range(1, min(got[x]["copies"], 8) + 1):
-                fb.append(dict(cfg=b["cfg"], steps=b["steps"], copyThrowAt=k))
-        fbp = os.path.join(ctx.work, "fault_behaviours.ndjson")
-        with open(fbp, "w") as f:
-            for i, b in enumerate(fb):
-                f.write(json.dumps(dict(b=i, cfg=b["cfg"], copyThrowAt=b["copyThrowAt"], steps=[dict(k=s["k"], n=s["n"], ch=s["ch"]) for s in b["steps"]])) + "\n")
-        flp = os.path.join(ctx.work, "fault_log.ndjson")
-        fout = os.path.join(ctx.work, "fault_out.ndjson")
-        sums, deaths = vlib.run_batches(ctx, exe, ["--behaviours", fbp, "--out", fout], len(fb), flp, timeout=3000)
-        rep.evaluations += len(fb)
-        rep.note("fault injection: %d executions with the k-th value copy throwing" % len(fb))
+        sums, deaths = vlib.run_batches(ctx, exe, ["--behaviours", bp, "--out", outp] + (["--log", lp] if False else []), len(behaviours), lp, timeout=3000, recover=True)
+        rep.note("[%s] replayed %d behaviours in %.1fs" % (bc["name"], sum(s["ran"] for s in sums), time.time() - t0))
+        got = {}
+        for l in open(outp):
+            try:
+                r = json.loads(l)
+            except Exception:
+                continue
+            got[r["x"]] = r
+        rep.evaluations += len(got)
+        nviol = 0
+        rel = RELEVANT.get(prop, ())
+        mem_props = ("C02", "C18")
         for d in deaths:
-            b = fb[d["x"]] if d["x"] < len(fb) else None
-            sh = by_id[b["cfg"]["shape"]]["spec"] if b else {"text": "?", "kind": []}
-            rep.violation(dict(engine="alg", event=d["event"], shape=sh["text"], kinds=sorted(set(sh["kind"])), asan=d.get("asan"), frame=d.get("frame"),
-                               where=d.get("where"), copyThrowAt=(b or {}).get("copyThrowAt"), cfg=(b or {}).get("cfg"),
-                               steps=[(s["k"], s["n"], s["ch"]) for s in b["steps"]] if b else None,
-                               what="%s with value copy #%s throwing in %s: %s %s" % (d["event"], (b or {}).get("copyThrowAt"), sh["text"], d.get("asan", ""), d.get("frame", "")),
-                               detail=d.get("stderr_tail")))
-        validate(flp, "fault", fb)
-        for i, b in enumerate(fb):
-            rep.distinct.add(hash(("fault", i)))
+            x = d["x"]
+            b = behaviours[x] if x < len(behaviours) else None
+            sh = by_id[b["cfg"]["shape"]]["spec"]["text"] if b else "?"
+            rec = dict(engine="alg", config=bc["name"], event=d["event"], shape=sh, cfg=(b["cfg"] if b else None),
+                       kinds=sorted(set(by_id[b["cfg"]["shape"]]["spec"]["kind"])) if b else [], asan=d.get("asan"), frame=d.get("frame"), where=d.get("where"),
+                       steps=[(s["k"], s["n"], s["ch"]) for s in b["steps"]] if b else None,
+                       what="%s while replaying %s: %s %s" % (d["event"], sh, d.get("asan", ""), d.get("frame", "")), detail=d.get("stderr_tail"))
+            if prop in mem_props or d["event"] in ("Terminate", "Hang", "Deadlock") and prop == "C01":
+                rep.violation(rec)
+            else:
+                rep.oos.append(dict(event=d["event"], shape=sh, frame=d.get("frame"), where=d.get("where"), asan=d.get("asan"),
+                                    steps=rec["steps"], mode=(b["cfg"]["mode"] if b else None), detail=(d.get("stderr_tail") or "")[-600:]))
+        tainted = set(d["x"] for d in deaths)
+        for x, b in enumerate(behaviours):
+            r = got.get(x)
+            if r is None or x in tainted:
+                continue               # the process died / a sanitizer report tainted this execution: the memory event is the verdict
+            sh = by_id[b["cfg"]["shape"]]["spec"]
+            key = (sh["id"], json.dumps(b["cfg"]["mode"], sort_keys=True), b["cfg"].get("throwAt"), tuple((s["k"], s["n"], s["ch"]) for s in b["steps"]))
+            if len(b["steps"]) > 1:
+                rep.distinct.add(hash(key))
+            diffs = {}
+            at = None
+            for i, (st, ob) in enumerate(zip(b["steps"], r["obs"])):
+                if "error" in ob:
+                    diffs["drift.unreplayable"] = ob["error"]
+                    at = i
+                    break
+                dd = compare(st["exp"], norm_obs_got(ob), b["cfg"])
+                if dd:
+                    diffs, at = dd, i
+                    break
+            if r["live"] or r["bad"]:
+                diffs["C02.lifetime"] = "tracked objects alive at the end: %d; %s" % (r["live"], r["bad"][:3])
+            fin = r.get("final", {})
+            if len(fin.get("root", [])) != 1:
+                diffs["C01.final"] = "after all leaves and contexts were drained the outer receiver was completed %d times" % len(fin.get("root", []))
+            if not diffs:
+                continue
+            hard = {k: v for k, v in diffs.items() if k.startswith(rel)}
+            if any(k.startswith("drift.") for k in diffs) or not hard:
+                rep.drift += 1
+                if rep.drift <= 3:
+                    rep.note("drift in %s step %s: %s" % (sh["text"], at, list(diffs.items())[:2]))
+            if hard:
+                nviol += 1
+                steps = [(s["k"], s["n"], s["ch"]) for s in b["steps"]]
+                exp_ch = got_ch = ""
+                if at is not None and at < len(r["obs"]) and "error" not in r["obs"][at]:
+                    er, gr = b["steps"][at]["exp"]["root"], r["obs"][at]["root"]
+                    exp_ch = er[0]["ch"] if er else "-"
+                    got_ch = gr[0]["ch"] if gr else "-"
+                rep.violation(dict(engine="alg", config=bc["name"], event="ObservationMismatch", shape=sh["text"], shape_id=sh["id"], fields=sorted(hard), step=at,
+                                   exp_ch=exp_ch, got_ch=got_ch, ext_stop=any(s["k"] == "X" for s in b["steps"][:(at or 0) + 1]),
+                                   kinds=sorted(set(sh["kind"])), mode=b["cfg"]["mode"], throwAt=b["cfg"].get("throwAt"), stopIn=b["cfg"].get("stopIn"),
+                                   steps=steps, what="%s: %s [modes %s, steps %s, at step %s]" % (
+                                       sh["text"], "; ".join(hard.values()), json.dumps(b["cfg"]["mode"], sort_keys=True), steps, at)))
+        # ---- C11: declared static traits of every shape (read from the code at build time) vs. all behaviours of the shape
+        if prop in ("C11", "C20"):
+            rc, so, se = vlib.run_exe(exe, ["--traits"], timeout=120)
+            traits = json.loads(so.strip().splitlines()[-1]) if rc == 0 and so.strip() else {}
+            BK = {0: "always_inline", 1: "always", 2: "maybe", 3: "never"}
+            bad_tr = {}
+            for x, b in enumerate(behaviours):
+                sid = b["cfg"]["shape"]
+                tr = traits.get(str(sid))
+                if not tr:
+                    continue
+                r = got.get(x)
+                for i, st in enumerate(b["steps"]):
+                    for src, obs in (("spec", st["exp"]), ("code", norm_obs_got(r["obs"][i]) if r and i < len(r["obs"]) and "error" not in r["obs"][i] else None)):
+                        if obs is None:
+                            continue
+                        before = len(b["steps"][i - 1]["exp"]["root"]) if i > 0 else 0
+                        in_start = st["k"] == "S" and len(obs["root"]) == 1 and before == 0
+                        if st["k"] == "S" and BK[tr["blocking"]] in ("always_inline", "always") and not in_start:
+                            bad_tr.setdefault((sid, "blocking=%s but start() returned without completion (%s)" % (BK[tr["blocking"]], src)), (b, i))
+                        if BK[tr["blocking"]] == "never" and in_start:
+                            bad_tr.setdefault((sid, "blocking=never but completed inside start() (%s)" % src), (b, i))
+                        if tr["sends_done"] == 0 and any(rr["ch"] == "d" for rr in obs["root"]):
+                            bad_tr.setdefault((sid, "sends_done=false but completed with done (%s)" % src), (b, i))
+            for (sid, msg), (b, i) in bad_tr.items():
+                sh = by_id[sid]["spec"]
+                rep.violation(dict(engine="alg", config=bc["name"], event="TraitUnsound", shape=sh["text"], kinds=sorted(set(sh["kind"])), trait=msg.split(" ")[0],
+                                   steps=[(s["k"], s["n"], s["ch"]) for s in b["steps"]], mode=b["cfg"]["mode"],
+                                   what="%s declares %s [modes %s, steps %s]" % (sh["text"], msg, json.dumps(b["cfg"]["mode"], sort_keys=True), [(s["k"], s["n"], s["ch"]) for s in b["steps"]])))
+            rep.note("static traits checked for %d shapes: %s" % (len(traits), collections.Counter(BK[t["blocking"]] for t in traits.values())))
+        # ---- code -> spec: the recorded event log of every execution is validated by TLC against the monitor AlgMon
+        monprop = {"C01": "C01", "C02": "C02", "C04": "C04", "C12": "C12", "C18": "ALL", "C20": "ALL"}.get(prop)
+        def validate(log_path, label, behs, skip=()):
+            t0 = time.time()
+            n, rejected = vlib.validate_batched(ctx, "algebra", "AlgMon", log_path, env={"PROP": monprop}, skip_x=skip)
+            rep.note("%s: %d recorded executions validated against AlgMon[%s] in %.0fs" % (label, n, monprop, time.time() - t0))
+            for rj in rejected:
+                x = rj["x"]
+                b = behs[x] if x is not None and x < len(behs) else None
+                sh = by_id[b["cfg"]["shape"]]["spec"] if b else {"text": "?", "kind": []}
+                nxt = rj["events"][rj["prefix"]] if rj.get("prefix") is not None and rj["prefix"] < len(rj["events"]) else None
+                rep.violation(dict(engine="alg", config=bc["name"], event="MonitorReject", monitor="AlgMon", rules=monprop, shape=sh["text"], kinds=sorted(set(sh["kind"])),
+                                   rejected_event=nxt, copyThrowAt=(b or {}).get("copyThrowAt", 0), cfg=(b or {}).get("cfg"),
+                                   steps=[(s["k"], s["n"], s["ch"]) for s in b["steps"]] if b else None,
+                                   what="AlgMon[%s] rejects the execution of %s at event %s (%s)" % (monprop, sh["text"], rj.get("prefix"), json.dumps(nxt)),
+                                   events=rj["events"][:200]))
+        if monprop:
+            validate(lp, "replay", behaviours, skip=tainted)
+            ex = vlib.split_executions(lp)
+            if ex:
+                rep.sample(dict(kind="recorded-trace", events=[json.loads(x) for x in ex[len(ex) // 2][1][:40]]))
+        # ---- fault injection (C02, and C01 in the thorough tier): the k-th copy of a tracked value throws
+        if prop == "C02" or (prop in ("C01",) and not ctx.quick):
+            cand = [(x, b) for x, b in enumerate(behaviours) if got.get(x) and got[x].get("copies", 0) > 0 and not b["cfg"].get("throwAt")]
+            ctx.rng.shuffle(cand)
+            cand = cand[:(250 if ctx.quick else 3000)]
+            fb = []
+            for x, b in cand:
+                for k in range(1, min(got[x]["copies"], 8) + 1):
+                    fb.append(dict(cfg=b["cfg"], steps=b["steps"], copyThrowAt=k))
+            fbp = os.path.join(ctx.work, "fault_behaviours.ndjson")
+            with open(fbp, "w") as f:
+                for i, b in enumerate(fb):
+                    f.write(json.dumps(dict(b=i, cfg=b["cfg"], copyThrowAt=b["copyThrowAt"], steps=[dict(k=s["k"], n=s["n"], ch=s["ch"]) for s in b["steps"]])) + "\n")
+            flp = os.path.join(ctx.work, "fault_log.ndjson")
+            fout = os.path.join(ctx.work, "fault_out.ndjson")
+            sums, deaths = vlib.run_batches(ctx, exe, ["--behaviours", fbp, "--out", fout], len(fb), flp, timeout=3000, recover=True)
+            rep.evaluations += len(fb)
+            rep.note("fault injection: %d executions with the k-th value copy throwing" % len(fb))
+            for d in deaths:
+                b = fb[d["x"]] if d["x"] < len(fb) else None
+                sh = by_id[b["cfg"]["shape"]]["spec"] if b else {"text": "?", "kind": []}
+                rep.violation(dict(engine="alg", event=d["event"], shape=sh["text"], kinds=sorted(set(sh["kind"])), asan=d.get("asan"), frame=d.get("frame"),
+                                   where=d.get("where"), copyThrowAt=(b or {}).get("copyThrowAt"), cfg=(b or {}).get("cfg"),
+                                   steps=[(s["k"], s["n"], s["ch"]) for s in b["steps"]] if b else None,
+                                   what="%s with value copy #%s throwing in %s: %s %s" % (d["event"], (b or {}).get("copyThrowAt"), sh["text"], d.get("asan", ""), d.get("frame", "")),
+                                   detail=d.get("stderr_tail")))
+            validate(flp, "fault", fb, skip=set(d["x"] for d in deaths))
+            for i, b in enumerate(fb):
+                rep.distinct.add(hash(("fault", i)))
+
+    # ---- build configurations: the default is C++17 with assertions and async stacks on (no NDEBUG)
+    CFGS = {
+        "cxx17-debug": dict(name="cxx17-debug", std="c++17", defs=[]),
+        "cxx17-release": dict(name="cxx17-release", std="c++17", defs=["NDEBUG"]),
+        "cxx20-debug-visit": dict(name="cxx20-debug-visit", std="c++20", defs=["UNIFEX_ENABLE_CONTINUATION_VISITATIONS=1"]),
+        "cxx20-release": dict(name="cxx20-release", std="c++20", defs=["NDEBUG"]),
+        "cxx17-debug-visit": dict(name="cxx17-debug-visit", std="c++17", defs=["UNIFEX_ENABLE_CONTINUATION_VISITATIONS=1"]),
+        "cxx20-debug": dict(name="cxx20-debug", std="c++20", defs=[]),
+        "cxx17-release-visit": dict(name="cxx17-release-visit", std="c++17", defs=["NDEBUG", "UNIFEX_ENABLE_CONTINUATION_VISITATIONS=1"]),
+        "cxx20-release-visit": dict(name="cxx20-release-visit", std="c++20", defs=["NDEBUG", "UNIFEX_ENABLE_CONTINUATION_VISITATIONS=1"]),
+    }
+    if prop == "C20":
+        names = ["cxx17-release", "cxx20-debug-visit"] if ctx.quick else list(CFGS)
+        rep.assume("configurations replayed: %s (gcc 12)" % ", ".join(names))
+    else:
+        names = ["cxx17-debug"]
+    for nm in names:
+        replay_cfg(CFGS[nm])
     for b in behaviours[:2]:
         rep.sample(dict(kind="tlc-behaviour", shape=by_id[b["cfg"]["shape"]]["spec"]["text"], modes=b["cfg"]["mode"],
                         steps=[dict(k=s["k"], n=s["n"], ch=s["ch"], expect_root=s["exp"]["root"], expect_seen=s["exp"]["seen"]) for s in b["steps"]]))
